@@ -76,7 +76,7 @@ def _needs_three():
 
 def reg_zoo():
     from skactiveml.regressor import NICKernelRegressor, NadarayaWatsonRegressor, SklearnRegressor, SklearnNormalRegressor
-    from sklearn.linear_model import LinearRegression, BayesianRidge, Ridge
+    from sklearn.linear_model import LinearRegression, BayesianRidge, Ridge, SGDRegressor
     from sklearn.gaussian_process import GaussianProcessRegressor
     from sklearn.tree import DecisionTreeRegressor
     return {
@@ -88,6 +88,7 @@ def reg_zoo():
         "Sk-LinearRegression": dict(mk=lambda **k: SklearnRegressor(LinearRegression(), **k), prob=False),
         "Sk-Ridge": dict(mk=lambda **k: SklearnRegressor(Ridge(), **k), prob=False),
         "Sk-Tree": dict(mk=lambda **k: SklearnRegressor(DecisionTreeRegressor(random_state=0), **k), prob=False),
+        "Sk-SGDRegressor": dict(mk=lambda **k: SklearnRegressor(SGDRegressor(random_state=0), **k), prob=False, partial=True),
         "SkNormal-BayesianRidge": dict(mk=lambda **k: SklearnNormalRegressor(BayesianRidge(), **k), prob=True, sk_normal=True),
         "Sk-NeedsThree": dict(mk=lambda **k: SklearnRegressor(_needs_three(), **k), prob=False, fallback=True),
         "SkNormal-NeedsThree": dict(mk=lambda **k: SklearnNormalRegressor(_needs_three(), **k), prob=True, sk_normal=True, fallback=True),
@@ -144,6 +145,10 @@ def make_clf_data(case, classes, ml):
     # query batch: five nearby points and one far away (kernel frequencies underflow to exactly 0 there: a zero-mass row next to rows with mass)
     Xq = np.vstack([rs.randn(5, 2).round(2), [[1.0e3, -1.0e3]]])
     return X, y, lab, w, Xq
+
+
+def extra_rows(rs):
+    return rs.randn(3, 2).round(2)
 
 
 def simplex(P, K):
@@ -354,6 +359,11 @@ def run_c12(case, fail):
             mk = lambda: z["mk"](missing_label=ml)
         else:
             mk = lambda: z["mk"](classes=[0, 1, 2], random_state=0, missing_label=ml)
+    if case.get("reg") and case["t"] % 6 == 4:
+        # the documented sentinel None: the targets then arrive as an object array
+        ml = None
+        mk = lambda: z["mk"](missing_label=None)
+        y = y.astype(object)
     y2 = y.copy()
     y2[miss] = ml
     w = (rs.rand(n) + 0.1) if use_w else None
@@ -367,9 +377,13 @@ def run_c12(case, fail):
     Xq = rs.randn(5, 2).round(2)
     try:
         b = fit(mk(), X[~miss], y2[~miss], None if w is None else w[~miss])
-        pb = pred(b, Xq)
     except Exception as e:
         return          # the labeled part alone is not an admissible training set for this model
+    try:
+        pb = pred(b, Xq)
+    except Exception as e:
+        fail("C12.predict_raised_after_fit_on_labeled_samples", f"{type(e).__name__}: {str(e)[:120]} (sentinel {ml!r})")
+        return
     try:
         a = fit(mk(), X, y2, w)
         pa = pred(a, Xq)
@@ -400,6 +414,28 @@ def run_c12(case, fail):
                 fail("C12.sample_weight_modified", "fit modified the caller's sample_weight array")
         except Exception:
             pass
+    if z.get("partial") and not (not case.get("reg") and z.get("multi")):
+        # incremental learners: a further batch that contains no label leaves the model as it is, and partial_fit continues from the model
+        # learned so far (two labeled halves, one after the other, are not the same as the second half alone)
+        try:
+            inc = mk()
+            lab_idx = np.where(~miss)[0]
+            half = len(lab_idx) // 2
+            if half >= 1:
+                kw_cls = {} if case.get("reg") else {}
+                inc.partial_fit(X[lab_idx[:half]], y2[lab_idx[:half]])
+                inc.partial_fit(X[lab_idx[half:]], y2[lab_idx[half:]])
+                p_before = pred(inc, Xq)
+                inc.partial_fit(X[miss][:3] if miss.any() else extra_rows(rs), np.full(min(3, int(miss.sum())) if miss.any() else 3, ml, dtype=y2.dtype))
+                if not np.allclose(pred(inc, Xq), p_before, atol=1e-8, equal_nan=True):
+                    fail("C12.partial_fit_on_unlabeled_batch_changes_the_model", "a partial_fit batch without any label changed the predictions")
+                only_second = mk()
+                only_second.partial_fit(X[lab_idx[half:]], y2[lab_idx[half:]])
+                if len(lab_idx) >= 6 and np.allclose(p_before, pred(only_second, Xq), atol=1e-12, equal_nan=True) and \
+                        not np.allclose(pred(mk().partial_fit(X[lab_idx[:half]], y2[lab_idx[:half]]), Xq), p_before, atol=1e-12, equal_nan=True):
+                    fail("C12.partial_fit_forgets_earlier_batches", "after two labeled batches the model equals a model that saw only the second one")
+        except Exception as e:
+            fail("C12.partial_fit_raised", f"{type(e).__name__}: {str(e)[:120]}")
     # revealing the same labels in a different order / moving unlabeled rows around
     extra = rs.randn(3, 2).round(2)
     X4 = np.vstack([extra, X])
